@@ -440,10 +440,17 @@ def check_c07(run: Run) -> None:
                     origin_refs.append(o.name[0])
                 if o.name[1] > 0:
                     run.obs['copy-number>0'] += 1
+        set_of = {}
+        for k, x in dl.sequence:
+            if k == 'E':
+                for o in x.objects:
+                    set_of.setdefault((x.type,) + tuple(o.name), []).append(x.name)
         for key, n in ids.items():
             if n > 1:
-                run.v('C07', 'identity-not-unique', 'duplicate-identity:' + key[0],
-                      f'lf {lfi}: {n} objects share identity {key}')
+                across = len(set(set_of[key])) == n      # every duplicate lives in a different set of this type
+                run.v('C07', 'identity-not-unique',
+                      ('duplicate-identity-across-sets' if across else 'duplicate-identity-same-set'),
+                      f'lf {lfi}: {n} objects share identity {key} (sets {set_of[key]})')
         # origin fields
         for k, x in dl.sequence:
             if k != 'E' or x.type == 'FILE-HEADER':
@@ -471,8 +478,12 @@ def check_c07(run: Run) -> None:
                                 run.obs['objref-seen'] += 1
                                 key = tuple(val)
                                 if ids.get(key, 0) != 1:
-                                    run.v('C07', 'reference-unresolved', 'objref-unresolved',
-                                          f'lf {lfi}: {x.type} {o.name} {a.label} -> {val} matches {ids.get(key, 0)} objects')
+                                    n_ = ids.get(key, 0)
+                                    mech = 'objref-unresolved'
+                                    if n_ > 1 and len(set(set_of[key])) == n_:
+                                        mech = 'reference-ambiguous-across-sets'
+                                    run.v('C07', 'reference-unresolved', mech,
+                                          f'lf {lfi}: {x.type} {o.name} {a.label} -> {val} matches {n_} objects')
                             else:
                                 cands = by_obname.get(tuple(val), [])
                                 if len(cands) == 0:
@@ -483,7 +494,9 @@ def check_c07(run: Run) -> None:
                 key = (want_type,) + tuple(x.ref)
                 run.obs['iflr-reference-checked'] += 1
                 if ids.get(key, 0) != 1:
-                    run.v('C07', 'iflr-reference-unresolved', 'iflr-unresolved',
+                    run.v('C07', 'iflr-reference-unresolved',
+                          ('reference-ambiguous-across-sets' if ids.get(key, 0) > 1 and len(set(set_of[key])) == ids[key]
+                           else 'iflr-unresolved'),
                           f'lf {lfi}: IFLR type {x.type} refers to {x.ref}: {ids.get(key, 0)} {want_type} objects match')
                 elif defined_at[key] > pos:
                     run.v('C07', 'iflr-before-definition', 'iflr-before-definition',
